@@ -56,6 +56,7 @@ int cmd_serial(int, char**);
 int cmd_api(int, char**);
 int cmd_dq(int, char**);
 int cmd_threads(int, char**);
+int cmd_emit(int, char**);
 int cmd_json(int, char**);
 int cmd_promela(int, char**);
 int cmd_lua(int, char**);
